@@ -5,6 +5,7 @@ import (
 	"go/constant"
 	"go/token"
 	"go/types"
+	"golang.org/x/tools/go/ssa"
 	"math/big"
 	"strings"
 )
@@ -17,12 +18,12 @@ type SpecVal struct {
 }
 
 type SpecEnv struct {
-	vc    *VC
-	vars  map[string]SpecVal
-	cur   *State
-	old   *State
-	pkg   *types.Package
-	lookup func(name string) (SpecVal, bool) // extra resolver (locals at a loop header)
+	vc         *VC
+	vars       map[string]SpecVal
+	cur        *State
+	old        *State
+	pkg        *types.Package
+	lookup     func(name string) (SpecVal, bool)          // extra resolver (locals at a loop header)
 	lookupAddr func(name string) (Term, types.Type, bool) // address of a local that lives in memory (&x in invariants)
 	// side conditions collected while evaluating (definedness assumptions of
 	// contract instantiations inside lemmas); they are assumed, not proved.
@@ -33,8 +34,8 @@ type SpecEnv struct {
 	shadowable map[string]SpecVal
 	inOld      bool
 	rangeOf    func(ord int) (string, bool) // ghost key of the map range driving loop ord (0: the loop being annotated)
-	tparams map[string]types.Type // type parameters of the function under contract (usable as quantifier types)
-	loopPre *State // loop invariants: the state in which the loop being annotated was entered (atentry(e))
+	tparams    map[string]types.Type        // type parameters of the function under contract (usable as quantifier types)
+	loopPre    *State                       // loop invariants: the state in which the loop being annotated was entered (atentry(e))
 }
 
 func (env *SpecEnv) child() *SpecEnv {
@@ -1020,6 +1021,36 @@ func (env *SpecEnv) call(e *Expr) (SpecVal, error) {
 		v, err := sub.Eval(args[0])
 		env.assumes = append(env.assumes, sub.assumes...)
 		return v, err
+	case "deferred":
+		// deferred(F): on this path a `defer` of a call to F (function or method name) has been
+		// registered by the function under contract - it will run when the function returns AND
+		// when it panics, which is what makes a release panic-safe
+		if len(args) != 1 || args[0].Kind != EIdent {
+			return SpecVal{}, fmt.Errorf("deferred takes a function name")
+		}
+		if env.vc.rootFr == nil {
+			return SpecVal{}, fmt.Errorf("deferred(F): no function in scope")
+		}
+		rf := env.vc.rootFr
+		var flags []Term
+		for _, d := range rf.allDefers() {
+			name := ""
+			if c := d.Common(); c.IsInvoke() {
+				name = c.Method.Name()
+			} else if f, ok := c.Value.(*ssa.Function); ok {
+				name = f.Name()
+			}
+			if name != args[0].Name {
+				continue
+			}
+			if flag, ok := env.cur.ghost[rf.deferKey(d)]; ok {
+				flags = append(flags, flag)
+			}
+		}
+		if len(flags) == 0 {
+			return SpecVal{T: False}, nil
+		}
+		return SpecVal{T: Or(flags...)}, nil
 	case "atentry":
 		// atentry(e): e (ghost variables, memory, values defined before the loop) as it was when
 		// the loop being annotated was entered - for a nested loop: entered this time
